@@ -254,6 +254,27 @@ CHECKS = {
 NOT_YET = "check not implemented yet in this revision (work in progress, see DESIGN.md section 3)"
 
 
+# workload families added after rounds 9 and 10 of independently seeded changes (DESIGN.md 7.9, 7.10)
+LATER = {
+ "C01": "Also: thread churn under a low descriptor limit, a program run twice into one trace directory, a stream larger than 2 GiB.",
+ "C02": "Also: 40-60 threads, threads sleeping for seconds between events, a stream larger than 2 GiB, consecutive events sharing one clock read.",
+ "C04": "Also: uncompleted words run with -a and with the kernel model required.",
+ "C05": "Also: equal thread ids in several looms and in several processes of one loom.",
+ "C08": "Also: task events, moved threads, and the ovni model's own events while the thread is out of the CPU.",
+ "C09": "Also: every script under partial writes without any kill, two ordered threads, failing writes in direct mode.",
+ "C10": "Also: rename / sendfile / copy_file_range / link / writev / ftruncate in the fault tables, two-thread scripts with path-scoped faults.",
+ "C11": "Also: thread churn (drivers/churndrv.c) on the TSan and the plain build, under a low descriptor limit, init/fini racing.",
+ "C12": "Also: rank attributes removed from a whole process, trailing flush pairs after the end event, mixed library versions per thread.",
+ "C13": "Also: loom_cpus shuffled or split over threads, rank attributes carried by a single thread of a process.",
+ "C14": "Also: threaded checks, padded and hexadecimal forms, a stale ERANGE in errno.",
+ "C16": "Also: regions before the first event and at the very end, clocks across 2^63, capped and failing pwrite calls (LD_PRELOAD shim).",
+ "C17": "Also: conflicting definitions among 3-4 threads, wide values, threads on the virtual CPU.",
+ "C18": "Also: repeated and nested events, several processes, non-ASCII labels.",
+ "C19": "Also: extreme clocks in sort windows, field-boundary mutants, remote-affinity insertions.",
+ "C20": "Also: bare pauses judged at every instant, 1-3 looms.",
+}
+
+
 def main():
     props = [json.loads(l)["id"] for l in open(os.path.join(HERE, "properties.jsonl"))]
     checks = []
@@ -270,7 +291,7 @@ def main():
             "evidence_file": "evidence/%s.json" % p,
             "replay_cmd_template": "./check %s --replay {path}" % p,
             "engine": "ovni-verif",
-            "level_claimed": {"category": c["cat"], "text": c["text"], "design_ref": c["ref"]},
+            "level_claimed": {"category": c["cat"], "text": c["text"] + (" " + LATER[p] if p in LATER else ""), "design_ref": c["ref"]},
             "level_note": c["note"],
             "technique": c["technique"],
         })
